@@ -6,6 +6,7 @@ import vlib
 import proc
 import world
 import worldscen as ws
+import cmdline
 import gen_rules
 
 MUTATING = {'renameat', 'unlinkat', 'unlink', 'utimensat', 'fprintf', 'write', 'mkostemp', 'mkstemp', 'mkdir', 'mkdtemp', 'rmdir', 'fork'}
@@ -371,6 +372,7 @@ def run(rep):
     if corr_bad and not rep.violations:
         rep.violation({'obligation': 'correspondence: a -d / -n run does not follow Model.mainP', 'disagreements': len(corr_bad),
                        'examples': corr_bad[:6]}, False)
+    rep.coverage['command_line_modes'] = cmdline.stage(rep, sc, tools, W, accepted_only=True)      # which mode the options select (tools/cmdline.py)
     vlib.lean_conclude(rep)
     rep.coverage.update({
         'evaluations': len(results),
